@@ -83,26 +83,37 @@ func (line *Line) ContainsLine(other *Line) bool {
 		return false
 	}
 	otherNumSegments := other.NumSegments()
+	// dir is the direction of the moves made so far for the current "other"
+	// segment. A move is never undone, otherwise a segment that is found on
+	// neither side of a shared vertex makes the walk step back and forth
+	// forever.
+	var dir int
 	for i := 1; i < otherNumSegments; i++ {
 		lineSeg := line.SegmentAt(segIdx)
 		otherSeg := other.SegmentAt(i)
 		if lineSeg.ContainsSegment(otherSeg) {
+			dir = 0
 			continue
 		}
-		if otherSeg.A == lineSeg.A {
+		if otherSeg.A == lineSeg.A && dir <= 0 {
 			// reverse it
 			if segIdx == 0 {
 				return false
 			}
 			segIdx--
 			i--
-		} else if otherSeg.A == lineSeg.B {
+			dir = -1
+		} else if otherSeg.A == lineSeg.B && dir >= 0 {
 			// forward it
 			if segIdx == lineNumSegments-1 {
 				return false
 			}
 			segIdx++
 			i--
+			dir = 1
+		} else if dir != 0 {
+			// moved, and the segment is not there either
+			return false
 		}
 	}
 	return true
